@@ -54,6 +54,12 @@ class AbstractContainer(abstract.GeomdlBase):
         self._vis_component = None  # visualization component
         self._cache['evalpts'] = []
 
+    def __deepcopy__(self, memo):
+        # The parent method drops the contents of the cache, re-initialize it
+        result = super(AbstractContainer, self).__deepcopy__(memo)
+        result._cache['evalpts'] = []
+        return result
+
     def __iter__(self):
         self._iter_index = 0
         return self
@@ -500,6 +506,13 @@ class SurfaceContainer(AbstractContainer):
         self._cache['faces'] = []
         for arg in args:
             self.add(arg)
+
+    def __deepcopy__(self, memo):
+        # The parent method drops the contents of the cache, re-initialize it
+        result = super(SurfaceContainer, self).__deepcopy__(memo)
+        result._cache['vertices'] = []
+        result._cache['faces'] = []
+        return result
 
     @property
     def delta_u(self):
